@@ -20,9 +20,11 @@ func init() {
 			"(both evaluated by abstract interpretation); EncodeKeySpec and DecodeKeySpec are mutually inverse on the six constants; the payload content type written by the signer is the constant the verifier accepts; " +
 			"(d) payload construction: SanitizeTargetArtifact copies exactly media type, digest, size and annotations of its argument; both signers sign Payload{SanitizeTargetArtifact(desc parameter)} " +
 			"(marshalled in the signing function or in a module helper it hands that parameter to; the bytes are followed through the helper's result into the request); " +
-			"expiry = SigningTime.Add(ExpiryDuration) only when the duration is non-zero (patched into the request, or computed ahead of it from the very value stored as SigningTime); the plugin request carries ExpiryDuration/time.Second; " +
+			"expiry = SigningTime.Add(ExpiryDuration) only when the duration is non-zero (patched into the request, computed ahead of it from the very value stored as SigningTime, or computed / stored by a module helper that is handed these); the plugin request carries ExpiryDuration/time.Second; " +
 			"the blob digest algorithm at signing is algorithms[keySpec.SignatureAlgorithm().Hash()] with a fail-closed miss; " +
-			"(e) the blob descriptor generator (function literal or bound method of an object the builder fills) is {given media type, digest and byte count of the given reader under the requested algorithm}.",
+			"(e) the blob descriptor generator (function literal or bound method of an object filled with the inputs; made by a builder both wrappers call, by the wrappers themselves or through a constructor) is {given media type, digest and byte count of the given reader under the requested algorithm}, " +
+			"runs the same code for SignBlob and VerifyBlob and holds the same inputs (reader, ContentMediaType and UserMetadata exactly as given). " +
+			"Values are decided per origin: through phis (single exit with a defaulted local), through module helpers (callee parameters = call arguments) and, for helpers that are handed less than the signer, at their closed list of call sites.",
 		NotCov:  "the sign->verify round trip itself for all keys and formats (cryptography and envelope encoders of notation-core-go).",
 		Trusted: []string{"go/types, go/ssa", "encoding/json", "notation-core-go signature (Sign, Verify, KeySpec)"},
 	})
@@ -114,48 +116,59 @@ func c07ReaderWriter(c *Ctx) {
 
 func c07Returns(c *Ctx) {
 	w := c.W
+	// Both clauses are about the value returned at each success-capable exit. That value is decided per origin
+	// (c07Origins): the exit may return it directly, through a local that is defaulted and overwritten (a phi — at the
+	// return block the engine keeps the exits apart by predecessor, deeper phis carry the facts of their edges), or
+	// through a module helper that computes it. Each origin is judged under the exit's must-pass facts plus the facts
+	// of the way it was produced; the clause itself (which payload, decoded from what, empty only when nothing was
+	// signed) is unchanged.
 	fn := w.Func("", "VerifyBlob")
 	if fn == nil {
 		c.Unk("returns/VerifyBlob", "anchor: notation.VerifyBlob", "-", "not found")
 	} else {
 		c.SeenFn(fn.String())
-		fi := w.Info(fn)
 		s := w.Summarize(fn, Mode{Kind: mErr})
 		c.Evals += s.States
 		rule := "notation.VerifyBlob returns, with the outcome the verifier produced, the TargetArtifact of the payload decoded from that outcome's verified content (or the empty descriptor when there is no verified content)"
 		ok := len(s.Exits) > 0
 		detail := ""
 		nPayload := 0
+		root := &c07Frame{Fn: fn}
 		for _, ex := range s.Exits {
 			r := ex.Ret
 			if len(r.Results) != 3 {
 				ok = false
 				continue
 			}
-			vo := desc(r.Results[1])
+			vo := desc(c07ExitValue(ex, 1))
 			if !strings.HasPrefix(vo, "call:invoke:ngo.BlobVerifier.VerifyBlob(") || !strings.HasSuffix(vo, "#0") {
 				ok, detail = false, "the outcome returned is "+vo
 			}
-			d0 := desc(r.Results[0])
-			if strings.HasPrefix(d0, "const:zero:") || strings.HasPrefix(d0, "alloc:ocispec.Descriptor<complit>") {
-				// allowed only when the outcome has no envelope content
-				if _, h := hasLabel(ex.Checked, "EQ("+vo+".EnvelopeContent,nil)"); !h {
-					ok, detail = false, "an empty descriptor is returned although the outcome carries verified content (exit "+w.InstrPos(r)+")"
+			origins, complete := c07Origins(w, root, c07ExitValue(ex, 0), ex.Checked)
+			if !complete {
+				ok, detail = false, "the descriptor returned at "+w.InstrPos(r)+" is too deep to follow"
+			}
+			for _, o := range origins {
+				d0 := o.F.lift(desc(o.V))
+				if c07ZeroValue(o.V) {
+					// allowed only when the outcome has no envelope content
+					if _, h := hasLabel(o.Guards, "EQ("+vo+".EnvelopeContent,nil)"); !h {
+						ok, detail = false, "an empty descriptor is returned although the outcome carries verified content (exit "+w.InstrPos(r)+")"
+					}
+					continue
 				}
-				continue
+				// <alloc Payload>.TargetArtifact, decoded from vo.EnvelopeContent.Payload.Content
+				if !strings.HasSuffix(d0, ".TargetArtifact") || !strings.HasPrefix(d0, "alloc:ngo/internal/envelope.Payload<") {
+					ok, detail = false, "the descriptor returned is "+d0
+					continue
+				}
+				al := strings.TrimSuffix(d0, ".TargetArtifact")
+				if _, h := hasLabel(o.Guards, "EQ(call:encoding/json.Unmarshal(call:invoke:ngo.BlobVerifier.VerifyBlob(", "#0.EnvelopeContent.Payload.Content,"+al+")#err,nil)"); !h {
+					ok, detail = false, "the returned descriptor is not decoded from the verified outcome's payload"
+				}
+				nPayload++
 			}
-			// <alloc Payload>.TargetArtifact, decoded from vo.EnvelopeContent.Payload.Content
-			if !strings.HasSuffix(d0, ".TargetArtifact") || !strings.HasPrefix(d0, "alloc:ngo/internal/envelope.Payload<") {
-				ok, detail = false, "the descriptor returned is "+d0
-				continue
-			}
-			al := strings.TrimSuffix(d0, ".TargetArtifact")
-			if _, h := hasLabel(ex.Checked, "EQ(call:encoding/json.Unmarshal(call:invoke:ngo.BlobVerifier.VerifyBlob(", "#0.EnvelopeContent.Payload.Content,"+al+")#err,nil)"); !h {
-				ok, detail = false, "the returned descriptor is not decoded from the verified outcome's payload"
-			}
-			nPayload++
 		}
-		_ = fi
 		c.Check(ok && nPayload > 0, "returns/VerifyBlob", rule, w.FnPos(fn), detail)
 	}
 	um := w.Method("", "VerificationOutcome", "UserMetadata")
@@ -170,26 +183,80 @@ func c07Returns(c *Ctx) {
 	ok := len(s.Exits) > 0
 	detail := ""
 	nAnn := 0
+	root := &c07Frame{Fn: um}
 	for _, ex := range s.Exits {
-		d0 := desc(ex.Ret.Results[0])
-		if strings.HasPrefix(d0, "makemap:") {
-			// empty map only when the signed annotations are nil
-			if _, h := hasLabel(ex.Checked, "EQ(alloc:ngo/internal/envelope.Payload<", ".TargetArtifact.Annotations,nil)"); !h {
-				ok, detail = false, "an empty map is returned although annotations exist"
+		origins, complete := c07Origins(w, root, c07ExitValue(ex, 0), ex.Checked)
+		if !complete {
+			ok, detail = false, "the map returned at "+w.InstrPos(ex.Ret)+" is too deep to follow"
+		}
+		for _, o := range origins {
+			d0 := o.F.lift(desc(o.V))
+			if mm, isMk := o.V.(*ssa.MakeMap); isMk {
+				// a map made on the spot: it must stay empty, and only when the signed annotations are nil
+				if !c07MapNeverFilled(mm) {
+					ok, detail = false, "a map made and filled in "+fnName(o.F.Fn)+" is returned"
+				}
+				l, h := hasLabel(o.Guards, "EQ(alloc:ngo/internal/envelope.Payload<", ".TargetArtifact.Annotations,nil)")
+				if !h {
+					ok, detail = false, "an empty map is returned although annotations exist"
+				} else if i := strings.Index(l, ".TargetArtifact.Annotations,nil)"); !strings.HasPrefix(l, "EQ(alloc:") || i < 0 {
+					ok, detail = false, "an empty map is returned under "+l
+				} else if _, h := hasLabel(o.Guards, "EQ(call:encoding/json.Unmarshal("+recv+".EnvelopeContent.Payload.Content,"+l[len("EQ("):i]+")#err,nil)"); !h {
+					// the annotations found nil must be those of the payload decoded from the outcome, not of some other payload
+					ok, detail = false, "an empty map is returned because "+l[len("EQ("):i]+" has no annotations, which is not the payload decoded from the outcome's content"
+				}
+				continue
 			}
-			continue
+			if !strings.HasPrefix(d0, "alloc:ngo/internal/envelope.Payload<") || !strings.HasSuffix(d0, ".TargetArtifact.Annotations") {
+				ok, detail = false, "UserMetadata returns "+d0
+				continue
+			}
+			al := strings.TrimSuffix(d0, ".TargetArtifact.Annotations")
+			if _, h := hasLabel(o.Guards, "EQ(call:encoding/json.Unmarshal("+recv+".EnvelopeContent.Payload.Content,"+al+")#err,nil)"); !h {
+				ok, detail = false, "the annotations are not decoded from the outcome's payload content"
+			}
+			nAnn++
 		}
-		if !strings.HasPrefix(d0, "alloc:ngo/internal/envelope.Payload<") || !strings.HasSuffix(d0, ".TargetArtifact.Annotations") {
-			ok, detail = false, "UserMetadata returns "+d0
-			continue
-		}
-		al := strings.TrimSuffix(d0, ".TargetArtifact.Annotations")
-		if _, h := hasLabel(ex.Checked, "EQ(call:encoding/json.Unmarshal("+recv+".EnvelopeContent.Payload.Content,"+al+")#err,nil)"); !h {
-			ok, detail = false, "the annotations are not decoded from the outcome's payload content"
-		}
-		nAnn++
 	}
 	c.Check(ok && nAnn > 0, "returns/UserMetadata", "UserMetadata returns exactly the annotations of the payload decoded from the outcome's verified content", w.FnPos(um), detail)
+}
+
+// c07ZeroValue: the zero value of a struct type — the zero constant, or a composite literal no field of which is set.
+func c07ZeroValue(v ssa.Value) bool {
+	if k, ok := v.(*ssa.Const); ok {
+		return k.Value == nil && !k.IsNil()
+	}
+	al, ok := unwrapLoadAlloc(v)
+	if !ok || al.Comment != "complit" || al.Referrers() == nil {
+		return false
+	}
+	for _, r := range *al.Referrers() {
+		switch x := r.(type) {
+		case *ssa.UnOp, *ssa.DebugRef:
+		case *ssa.FieldAddr:
+			if addrWritten(x, 0) {
+				return false
+			}
+		default:
+			return false
+		}
+	}
+	return true
+}
+
+// c07MapNeverFilled: nothing is ever put into the map made here (it is only handed on: returned, merged into a phi).
+func c07MapNeverFilled(mm *ssa.MakeMap) bool {
+	if mm.Referrers() == nil {
+		return true
+	}
+	for _, r := range *mm.Referrers() {
+		switch r.(type) {
+		case *ssa.Return, *ssa.Phi, *ssa.DebugRef:
+		default:
+			return false
+		}
+	}
+	return true
 }
 
 // ---- (c) ---------------------------------------------------------------------
@@ -527,7 +594,8 @@ func c07Payload(c *Ctx) {
 			// the payload type constant is written next to the bytes (same object)
 			okType := false
 			owner := desc(sk.Store.Addr.(*ssa.FieldAddr).X)
-			for _, b := range g.Blocks {
+			// (searched where the bytes are stored: the signing function, or the request constructor it hands them to)
+			for _, b := range sk.Store.Parent().Blocks {
 				for _, in := range b.Instrs {
 					st, isSt := in.(*ssa.Store)
 					if !isSt {
@@ -568,15 +636,19 @@ func c07Payload(c *Ctx) {
 						continue
 					}
 					d := desc(st.Val)
-					ed := paramWhere(fn, hasField("ExpiryDuration")) + ".ExpiryDuration"
-					// decided on the SSA value: directly SigningTime.Add(d) under the guard, or a variable computed ahead of the
-					// request whose every origin is that sum (under the guard) or the zero time — see c07ExpiryValue
-					okE, why := c07ExpiryValue(fi, st, fa, ed)
+					// decided on the SSA value: directly SigningTime.Add(d) under the guard, a variable computed ahead of the
+					// request, or the result of a module helper — every origin is that sum (under the guard) or the zero time — see c07ExpiryValue
+					okE, why := c07ExpiryValue(w, fi, st, fa)
 					c.Evals++
 					c.Check(okE, "payload/expiry", "expiry = SigningTime.Add(ExpiryDuration) of the same request, set only when the duration is non-zero", w.InstrPos(st), fmt.Sprintf("value %s; guards %s; %s", d, summarizeLabels(fi.GuardsOf(st), 4), why))
 				case "ExpiryDurationInSeconds":
 					d := desc(st.Val)
-					c.Check(d == "("+paramWhere(fn, hasField("ExpiryDuration"))+".ExpiryDuration / const:1000000000)", "payload/expiry-plugin", "the plugin request carries ExpiryDuration / time.Second", w.InstrPos(st), "value "+d)
+					// decided in the function that fills the request when it has the options; a request constructor that is
+					// handed the number instead is decided at its (closed list of) call sites
+					okP := c07DecidedUpward(w, fn, d, func(f *ssa.Function, d string) bool {
+						return d == "("+paramWhere(f, hasField("ExpiryDuration"))+".ExpiryDuration / const:1000000000)"
+					}, 0)
+					c.Check(okP, "payload/expiry-plugin", "the plugin request carries ExpiryDuration / time.Second", w.InstrPos(st), "value "+d)
 				case "SigningScheme":
 					if namedOf(fa.X.Type()) == "core/signature.SignRequest" {
 						c.Check(desc(st.Val) == `const:"notary.x509"`, "payload/signing-scheme", "the local signer signs under scheme notary.x509", w.InstrPos(st), "value "+desc(st.Val))
@@ -673,9 +745,29 @@ func c07BlobDescriptor(c *Ctx) {
 	if n < 2 {
 		c.Unk("blob-descriptor/generator-call#count", "vacuity guard: the signer and the verifier each invoke the generator", "-", fmt.Sprintf("%d invocations found", n))
 	}
-	// both wrappers build the generator from the caller's raw options with the same builder
-	var builder *ssa.Function
+	// Both wrappers hand on a generator that runs the same code over the same inputs. The generator is found by role (the
+	// BlobDescriptorGenerator argument the wrapper passes on, c07WrapperGenerators) and traced to the function value: made
+	// by a builder function both wrappers call, or by the wrapper itself (a literal, or a method value bound to an object
+	// the wrapper fills). What matters for the property is the code the generator runs (Body) and what was put into it,
+	// seen from the wrapper (the caller's raw options) — not which function happens to create the function value.
+	normalise := func(fn *ssa.Function, v ssa.Value) string {
+		if v == nil {
+			return "?"
+		}
+		d := desc(v)
+		for _, p := range fn.Params {
+			d = strings.ReplaceAll(d, "param:"+p.Name()+".BlobVerifierVerifyOptions.", "OPTS.")
+			d = strings.ReplaceAll(d, "param:"+p.Name()+".", "OPTS.")
+			d = strings.ReplaceAll(d, "param:"+p.Name(), "P:"+abbrev(p.Type().String()))
+		}
+		return d
+	}
+	isString := func(t types.Type) bool { b, ok := t.Underlying().(*types.Basic); return ok && b.Kind() == types.String }
+	isReader := func(t types.Type) bool { return t.String() == "io.Reader" }
+	isStringMap := func(t types.Type) bool { return abbrev(types.TypeString(t.Underlying(), nil)) == "map[string]string" }
 	shapes := map[string]string{}
+	bodies := map[string]string{}
+	var all []c07GenUse
 	for _, name := range []string{"SignBlob", "VerifyBlob"} {
 		fn := w.Func("", name)
 		if fn == nil {
@@ -683,111 +775,116 @@ func c07BlobDescriptor(c *Ctx) {
 			continue
 		}
 		c.SeenFn(fn.String())
-		found := false
-		for _, ci := range allCalls(fn) {
-			call, ok := ci.(*ssa.Call)
-			if !ok {
-				continue
+		uses, why := c07WrapperGenerators(w, fn)
+		if len(uses) == 0 || why != "" {
+			if why == "" {
+				why = "no descriptor generator (made here or by a module function called here) is handed on"
 			}
-			g := staticCallee(call)
-			if g == nil || !w.IsProductFn(g) || g.Signature.Results().Len() != 1 || namedOf(g.Signature.Results().At(0).Type()) != "ngo.BlobDescriptorGenerator" {
-				continue
-			}
-			found = true
-			if builder == nil {
-				builder = g
-			} else if builder != g {
-				c.Bad("blob-descriptor/same-builder", "sibling agreement: SignBlob and VerifyBlob build the descriptor generator with the same function", w.InstrPos(call), "different builders: "+fnName(builder)+" vs "+fnName(g))
-			}
-			var parts []string
-			for _, a := range call.Call.Args {
-				d := desc(a)
-				// normalise the options parameter name
-				for _, p := range fn.Params {
-					d = strings.ReplaceAll(d, "param:"+p.Name()+".BlobVerifierVerifyOptions.", "OPTS.")
-					d = strings.ReplaceAll(d, "param:"+p.Name()+".", "OPTS.")
-					d = strings.ReplaceAll(d, "param:"+p.Name(), "P:"+abbrev(p.Type().String()))
+			c.Bad("blob-descriptor/wrapper/"+name, "the wrapper hands the signer / verifier a descriptor generator whose making is visible (a shared builder's result, or a function value the wrapper creates)", w.FnPos(fn), why)
+			continue
+		}
+		var bs, sh []string
+		for _, u := range uses {
+			bs = append(bs, fnName(u.Gen.Body))
+			// the inputs, by role: what the generator holds as media type, reader and user metadata, in the wrapper's terms
+			sh = append(sh, "mediaType="+normalise(fn, u.inWrapper(u.Gen.capture(isString)))+" | reader="+normalise(fn, u.inWrapper(u.Gen.capture(isReader)))+
+				" | userMetadata="+normalise(fn, u.inWrapper(u.Gen.capture(isStringMap))))
+			known := false
+			for _, o := range all {
+				if o.Gen.Made == u.Gen.Made {
+					known = true
 				}
-				parts = append(parts, d)
 			}
-			shapes[name] = strings.Join(parts, " | ")
+			if !known {
+				all = append(all, u)
+			}
 		}
-		if !found {
-			c.Bad("blob-descriptor/wrapper/"+name, "the wrapper builds its descriptor generator with the shared builder", w.FnPos(fn), "no call of a function returning BlobDescriptorGenerator")
-		}
+		bodies[name] = strings.Join(uniq(sortStrings(bs)), " , ")
+		shapes[name] = strings.Join(uniq(sortStrings(sh)), " ; ")
+	}
+	if len(bodies) == 2 && bodies["SignBlob"] != bodies["VerifyBlob"] {
+		c.Bad("blob-descriptor/same-builder", "sibling agreement: the descriptor generators SignBlob and VerifyBlob hand on run the same code", w.FnPos(w.Func("", "VerifyBlob")), "different generators: "+bodies["SignBlob"]+" vs "+bodies["VerifyBlob"])
 	}
 	if len(shapes) == 2 {
-		okShape := shapes["SignBlob"] == shapes["VerifyBlob"] && strings.Contains(shapes["SignBlob"], "OPTS.ContentMediaType") && strings.Contains(shapes["SignBlob"], "OPTS.UserMetadata")
-		c.Check(okShape, "blob-descriptor/same-inputs", "sibling agreement: SignBlob and VerifyBlob hand the builder the same inputs — the reader, the caller's ContentMediaType and UserMetadata exactly as given (so the same option string signs and verifies)", w.FnPos(w.Func("", "SignBlob")),
-			"SignBlob passes ["+shapes["SignBlob"]+"], VerifyBlob passes ["+shapes["VerifyBlob"]+"]")
+		okShape := shapes["SignBlob"] == shapes["VerifyBlob"] && strings.Contains(shapes["SignBlob"], "mediaType=OPTS.ContentMediaType |") && strings.HasSuffix(shapes["SignBlob"], "userMetadata=OPTS.UserMetadata") &&
+			strings.Contains(shapes["SignBlob"], "reader=P:io.Reader |")
+		c.Check(okShape, "blob-descriptor/same-inputs", "sibling agreement: SignBlob and VerifyBlob put the same inputs into the generator — the reader, the caller's ContentMediaType and UserMetadata exactly as given (so the same option string signs and verifies)", w.FnPos(w.Func("", "SignBlob")),
+			"SignBlob: ["+shapes["SignBlob"]+"], VerifyBlob: ["+shapes["VerifyBlob"]+"]")
 	}
-	if builder != nil {
-		// the generator's closure: MediaType <- contentMediaType parameter, Digest <- digester.Digest(), Size <- io.Copy count; metadata added through the shared helper
-		c.SeenFn(builder.String())
-		// The generator is whatever function value the builder creates: a function literal capturing the builder's parameters, or
-		// a method value bound to an object the builder fills from its parameters (c07Generators gives, for either, the body
-		// and how a captured parameter reads inside it). A builder in which no generator body is found is not decided.
-		gens := c07Generators(w, builder)
-		if len(gens) == 0 {
-			c.Unk("blob-descriptor/generator-body", "anchor: the function value the builder returns as descriptor generator (function literal or bound method)", w.FnPos(builder), "no function value is created in "+fnName(builder))
+	// a builder returns nothing but generators it creates
+	seenBuilder := map[*ssa.Function]bool{}
+	for _, u := range all {
+		builder := u.Gen.Maker
+		if u.Call == nil || u.Gen.Made.Parent() != builder || seenBuilder[builder] {
+			continue
 		}
-		// every value the builder returns is one of these function values
+		seenBuilder[builder] = true
+		c.SeenFn(builder.String())
 		for _, b := range builder.Blocks {
 			if r, ok := blockTerm(b).(*ssa.Return); ok && len(r.Results) == 1 {
 				found := false
-				for _, gen := range gens {
-					if unwrap(r.Results[0]) == ssa.Value(gen.Made) {
+				for _, o := range all {
+					if o.Gen.Maker == builder && unwrap(r.Results[0]) == ssa.Value(o.Gen.Made) {
 						found = true
 					}
 				}
-				if !found && len(gens) > 0 {
+				if !found {
 					c.Unk("blob-descriptor/generator-body", "anchor: the function value the builder returns as descriptor generator (function literal or bound method)", w.InstrPos(r), "the builder returns "+desc(r.Results[0])+", not a function value it creates")
 				}
 			}
 		}
-		for _, gen := range gens {
-			cl := gen.Body
-			c.SeenFn(cl.String())
-			stored := map[string]string{}
-			for _, b := range cl.Blocks {
-				for _, in := range b.Instrs {
-					if st, ok := in.(*ssa.Store); ok {
-						if fa, ok := st.Addr.(*ssa.FieldAddr); ok && namedOf(fa.X.Type()) == "ocispec.Descriptor" {
-							stored[fieldName(fa.X.Type(), fa.Field)] = desc(st.Val)
-						}
+	}
+	// the generator's body: MediaType <- the captured media type, Digest <- digester.Digest(), Size <- io.Copy count of the captured reader
+	for _, gen := range all {
+		cl := gen.Gen.Body
+		c.SeenFn(cl.String())
+		stored := map[string]string{}
+		for _, b := range cl.Blocks {
+			for _, in := range b.Instrs {
+				if st, ok := in.(*ssa.Store); ok {
+					if fa, ok := st.Addr.(*ssa.FieldAddr); ok && namedOf(fa.X.Type()) == "ocispec.Descriptor" {
+						stored[fieldName(fa.X.Type(), fa.Field)] = desc(st.Val)
 					}
 				}
 			}
-			mtFV := gen.Captured(func(t types.Type) bool { b, ok := t.Underlying().(*types.Basic); return ok && b.Kind() == types.String })
-			rdFV := gen.Captured(func(t types.Type) bool { return t.String() == "io.Reader" })
-			// the digest: Digester().Digest() after copying into Digester().Hash(), or NewDigest(alg, h) after copying into h = alg.Hash()
-			okDigest := strings.HasPrefix(stored["Digest"], "call:invoke:digest.Digester.Digest(")
-			if strings.HasPrefix(stored["Digest"], "call:digest.NewDigest(param:") {
-				_, dargs := splitTopArgs(strings.TrimPrefix(stored["Digest"], "call:"))
-				if len(dargs) == 2 && dargs[1] == "call:(digest.Algorithm).Hash("+dargs[0]+")" && strings.HasPrefix(stored["Size"], "call:io.Copy("+dargs[1]+",") {
-					okDigest = true
-				}
-			}
-			// Size: the count io.Copy returns for copying the builder's reader itself (not something derived from it) into the hash
-			okSize := false
-			if sz := stored["Size"]; strings.HasPrefix(sz, "call:io.Copy(") && strings.HasSuffix(sz, "#0") {
-				_, cargs := splitTopArgs(strings.TrimSuffix(strings.TrimPrefix(sz, "call:"), "#0"))
-				okSize = len(cargs) == 2 && cargs[1] == rdFV
-			}
-			okGen := stored["MediaType"] == mtFV && okDigest && okSize
-			c.Check(okGen, "blob-descriptor/generator-body", "the generated descriptor is {MediaType: the given content media type, Digest: digest of the bytes read with the requested algorithm, Size: number of bytes read}", w.FnPos(cl), fmt.Sprintf("fields: %v (the builder's media type parameter reads as %s, its reader as %s)", stored, mtFV, rdFV))
-			// the digester comes from the algorithm argument
-			okAlg := false
-			for _, ci := range allCalls(cl) {
-				if call, ok := ci.(*ssa.Call); ok && (calleeName(call) == "(digest.Algorithm).Digester" || calleeName(call) == "(digest.Algorithm).Hash") {
-					// the generator's own algorithm argument (a parameter of the body, not something read off a receiver)
-					if p, isP := loadOrigin(unwrap(call.Call.Args[0])).(*ssa.Parameter); isP && p.Parent() == cl && namedOf(p.Type()) == "digest.Algorithm" {
-						okAlg = true
-					}
-				}
-			}
-			c.Check(okAlg, "blob-descriptor/generator-algorithm", "the digester is created from the algorithm the generator was called with", w.FnPos(cl), "the digest algorithm argument is not used")
 		}
+		// how the given media type / reader read inside the body: the capture of that type, provided what was captured is
+		// what the wrapper gave (a builder must capture its own parameter, not something it derived from it)
+		given := func(cp c07Capture) string {
+			if !strings.HasPrefix(cp.Reads, "?:") && gen.inWrapper(cp) == nil {
+				return "?:the-builder-captures-" + desc(cp.Val)
+			}
+			return cp.Reads
+		}
+		mtFV := given(gen.Gen.capture(isString))
+		rdFV := given(gen.Gen.capture(isReader))
+		// the digest: Digester().Digest() after copying into Digester().Hash(), or NewDigest(alg, h) after copying into h = alg.Hash()
+		okDigest := strings.HasPrefix(stored["Digest"], "call:invoke:digest.Digester.Digest(")
+		if strings.HasPrefix(stored["Digest"], "call:digest.NewDigest(param:") {
+			_, dargs := splitTopArgs(strings.TrimPrefix(stored["Digest"], "call:"))
+			if len(dargs) == 2 && dargs[1] == "call:(digest.Algorithm).Hash("+dargs[0]+")" && strings.HasPrefix(stored["Size"], "call:io.Copy("+dargs[1]+",") {
+				okDigest = true
+			}
+		}
+		// Size: the count io.Copy returns for copying the captured reader itself (not something derived from it) into the hash
+		okSize := false
+		if sz := stored["Size"]; strings.HasPrefix(sz, "call:io.Copy(") && strings.HasSuffix(sz, "#0") {
+			_, cargs := splitTopArgs(strings.TrimSuffix(strings.TrimPrefix(sz, "call:"), "#0"))
+			okSize = len(cargs) == 2 && cargs[1] == rdFV
+		}
+		okGen := stored["MediaType"] == mtFV && okDigest && okSize
+		c.Check(okGen, "blob-descriptor/generator-body", "the generated descriptor is {MediaType: the given content media type, Digest: digest of the bytes read with the requested algorithm, Size: number of bytes read}", w.FnPos(cl), fmt.Sprintf("fields: %v (the captured media type reads as %s, the captured reader as %s)", stored, mtFV, rdFV))
+		// the digester comes from the algorithm argument
+		okAlg := false
+		for _, ci := range allCalls(cl) {
+			if call, ok := ci.(*ssa.Call); ok && (calleeName(call) == "(digest.Algorithm).Digester" || calleeName(call) == "(digest.Algorithm).Hash") {
+				// the generator's own algorithm argument (a parameter of the body, not something read off a receiver)
+				if p, isP := loadOrigin(unwrap(call.Call.Args[0])).(*ssa.Parameter); isP && p.Parent() == cl && namedOf(p.Type()) == "digest.Algorithm" {
+					okAlg = true
+				}
+			}
+		}
+		c.Check(okAlg, "blob-descriptor/generator-algorithm", "the digester is created from the algorithm the generator was called with", w.FnPos(cl), "the digest algorithm argument is not used")
 	}
 }
 
